@@ -351,6 +351,17 @@ impl<'a> crate::fdl::FdlApplication for DpMaster<'a> {
                             };
                             return None;
                         }
+
+                        if peripheral_event.is_some() {
+                            // Only one peripheral event can be reported per poll cycle.  End our
+                            // turn here so this one is delivered before another peripheral gets
+                            // the chance to raise an event as well.
+                            self.state.last_events = DpEvents {
+                                peripheral: peripheral_event,
+                                ..Default::default()
+                            };
+                            return None;
+                        }
                     }
                 }
             } else {
